@@ -8,7 +8,9 @@ the same bytes and yields a recipe of library calls which the driver evaluates w
 constructors (model == implementation); the oracle is the expression built directly from the tree."""
 from checks import parsecommon as pc
 
-PROOF_MODULES = []   # coq/Parse/*.v are compiled directly with coqc by parsecommon.build_coq (see ORDER there)
+# built by ctx.prove (make) once coq/Parse/*.v are listed in coq/_CoqProject; until then parsecommon.prepare
+# compiles them directly with coqc (parsecommon.ORDER) and proof_modules() is empty
+PROOF_MODULES = pc.PROOF_VO
 OBLIGATIONS = [
     "C17/P_grammar_conventional.v", "C17/P_grammar_complete.v", "C17/P_grammar_unambiguous.v",
     "C17/P_maximal_munch.v", "C17/P_prec_table.v",
@@ -52,7 +54,7 @@ def nontrivial(s):
 def run(ctx):
     ctx.gate(["Parse", "C17"])
     drv, model = pc.prepare(ctx)
-    ctx.prove(PROOF_MODULES, OBLIGATIONS)
+    ctx.prove(pc.proof_modules(), OBLIGATIONS)
     if drv is None or model is None:
         return
     quick = ctx.tier == "quick"
